@@ -723,7 +723,9 @@ func allInjections() []injection {
 				if g.rng.Intn(5) == 0 {
 					w = 0 // counts as 100
 				}
-				ws = append(ws, jwt.WeightedMapping{Subject: jwt.Subject(fmt.Sprintf("t.%d", k)), Weight: uint8(w)})
+				// the limit is on the source's total, whatever cluster each target names
+				cl := []string{"", "", "east", "west", fmt.Sprintf("c%d", k)}[g.rng.Intn(5)]
+				ws = append(ws, jwt.WeightedMapping{Subject: jwt.Subject(fmt.Sprintf("t.%d", k)), Weight: uint8(w), Cluster: cl})
 				if w == 0 {
 					sum += 100
 				} else {
@@ -791,7 +793,7 @@ func allInjections() []injection {
 		}},
 		{"O2 operator service url", "operator", func(g *cleanGen, c jwt.Claims) bool {
 			oc := c.(*jwt.OperatorClaims)
-			oc.OperatorServiceURLs = append(oc.OperatorServiceURLs, g.pick("http://h:80", "nats://user:pw@h:4222", "nats://h:4222/path", "h:4222", "nats://bad host", "tlss://h"))
+			oc.OperatorServiceURLs = append(oc.OperatorServiceURLs, g.pick("http://h:80", "nats://user:pw@h:4222", "nats://h:4222/path", "h:4222", "nats://bad host", "tlss://h", "nats://h:4222/", "tls://h/", "wss://h:443//", "nats://:pw@h", "NATS://h:4222/x", "ws://u@h"))
 			return true
 		}},
 		{"O3 operator signing key", "operator", func(g *cleanGen, c jwt.Claims) bool {
